@@ -7,7 +7,7 @@ os.makedirs(dst, exist_ok=True)
 for f in ("patch.diff", "demo.py"):
     shutil.copy(os.path.join(src, f), os.path.join(dst, f))
 meta = json.load(open(os.path.join(src, "meta.json")))
-meta["base_commit"] = subprocess.run(["git", "-C", "/repo", "rev-parse", "--short", "HEAD"], capture_output=True, text=True).stdout.strip()
+meta["base_commit"] = os.environ.get("SEED_BASE") or subprocess.run(["git", "-C", "/repo", "rev-parse", "--short", "HEAD"], capture_output=True, text=True).stdout.strip()
 meta["confirmed"] = {"demo_clean_exit": 0, "demo_patched_exit": 1, "repo_tests_with_patch": "484 passed, 8 xfailed, 3 xpassed",
                      "how": "tools/try_seeded.sh %s <dir>: scratch copy of /repo, demo before/after patch, repository tests with PYTHONPATH=<copy>/src, then ./run.py %s quick with VERIF_REPO=<copy>" % (ID, ID)}
 meta.update(extra)
